@@ -14,7 +14,7 @@ VARIABLES fv, pc
 vars == <<fv, pc>>
 
 NumKinds == {"int32", "int64", "uint32", "uint64", "sint32", "sint64", "fixed32", "fixed64", "sfixed32", "sfixed64", "float", "double"}
-NumRules == {"gt", "gte", "lt", "lte", "gt_lt", "gte_lte", "in", "const"}
+NumRules == {"gt", "gte", "lt", "lte", "gt_lt", "gte_lte", "gte_lte_eq", "in", "const"}
 BoundClasses == {"neg", "zero", "small", "big53", "extreme"}
 StrRules == {"minLen", "maxLen", "len_range", "pattern", "in", "const", "in_numeric_looking", "email", "uuid", "uri", "hostname", "ipv4", "ipv6", "required"}
 RepRules == {"minItems", "maxItems", "items_range", "unique"}
